@@ -595,7 +595,7 @@ Proof.
   { unfold ds0. rewrite ids_app. apply nodup_snoc; assumption. }
   match goal with |- context [let '(ds1, o1) := ?X in _] => remember X as x1 eqn:E1 end.
   assert (Rwl now ds0 (fst x1)) as H1.
-  { subst x1. destruct (negb fixed && negb (is_ok (c_kind (fc_base c)) (s_raw (f_st f)))).
+  { subst x1. destruct (negb fixed && s_has_cr (f_st f) && negb (is_ok (c_kind (fc_base c)) (s_raw (f_st f)))).
     - eapply Rl_Rwl. apply trigger_dt_Rl. exact Hnd0.
     - apply Rwl_refl. }
   clear E1. destruct x1 as [ds1 o1]. cbn [fst] in H1.
@@ -883,7 +883,7 @@ Proof.
   unfold do_dt_add.
   match goal with |- context [let '(ds1, o1) := ?X in _] => remember X as x1 eqn:E1 end.
   assert (Forall trig_out (snd x1)) as H1.
-  { subst x1. destruct (negb fixed && negb (is_ok (c_kind (fc_base c)) (s_raw (f_st f)))); [apply trigger_dt_outs|constructor]. }
+  { subst x1. destruct (negb fixed && s_has_cr (f_st f) && negb (is_ok (c_kind (fc_base c)) (s_raw (f_st f)))); [apply trigger_dt_outs|constructor]. }
   clear E1. destruct x1 as [ds1 o1]. cbn [snd] in H1.
   match goal with |- context [let '(ds2, o2) := ?X in _] => remember X as x2 eqn:E2 end.
   assert (Forall trig_out (snd x2)) as H2.
@@ -1299,7 +1299,7 @@ Proof.
         * cnt_eval. lia.
       + eexists _, _. split; [reflexivity|]. split; [|auto].
         cnt_eval. destruct (f_paused f); cbv iota; lia.
-    - destruct (negb (is_ok (c_kind (fc_base c)) (s_raw (f_st f)))) eqn:Hnok.
+    - destruct (s_has_cr (f_st f) && negb (is_ok (c_kind (fc_base c)) (s_raw (f_st f)))) eqn:Hnok.
       + case_eq (c5_inwin now dnew); intros Hw; rewrite Hw in Hcan.
         * unfold chain_fuel. rewrite (trigger_dt_leaf _ now (f_paused f) id _ ds0 dnew F0 eq_refl Hcan).
           cbn [d_trigger dnew new_dt d_fixed negb andb app]. replace (0 =? 0) with true by reflexivity.
